@@ -57,3 +57,22 @@ impl MemResizable for GuardStore {
         self.0.resize(new_size)
     }
 }
+
+/// The same instrumented backend, but every fresh storage already has room for two elements (a "small buffer" style
+/// growable backend): `build()` returns a non-empty `Mem`.
+#[derive(Clone, Copy, Default)]
+pub struct GuardPre2(pub GuardMem);
+pub const PRE: usize = 2;
+impl MemBuilder for GuardPre2 {
+    type Mem = GuardStore;
+    fn build(&mut self, element_layout: Layout) -> GuardStore {
+        GuardBlock::note_build(element_layout);
+        GuardStore(GuardBlock::allocate(element_layout, PRE, self.0.growth))
+    }
+}
+impl MemBuilderSizeable for GuardPre2 {
+    fn build_with_size(&mut self, element_layout: Layout, capacity: usize) -> GuardStore {
+        GuardBlock::note_build(element_layout);
+        GuardStore(GuardBlock::allocate(element_layout, capacity.max(PRE), self.0.growth))
+    }
+}
